@@ -87,6 +87,16 @@ SeqTextProbes == <<
   Ob(Var(A)), Ob(Cmp("==", Var(A), Var(<<98>>))), Ob(Cmp("contains", Var(A), Lit(IntV(104)))), Ob(Cmp("<", Var(A), Var(<<98>>))),
   Ob(Fl(Var(A), "truncatewords", <<Lit(IntV(1))>>)), Ob(Fl(Var(A), "newline_to_br", <<>>)), Ob(Fl(Var(A), "strip_html", <<>>))
 >>   \* (json and inspect are debugging aids that show the Go structure: not probed)
+\* an array with a nil in the middle, the nil held as a plain nil, a Drop whose value is nil, a nil pointer
+NilSeqProbes == <<
+  Ob(Fl(Var(A), "join", <<Lit(Str(<<44>>))>>)), Ob(Fl(Fl(Var(A), "compact", <<>>), "join", <<Lit(Str(<<44>>))>>)), Ob(Fl(Fl(Var(A), "compact", <<>>), "size", <<>>)),
+  Ob(Fl(Var(A), "size", <<>>)), Ob(Fl(Fl(Var(A), "uniq", <<>>), "size", <<>>)), Ob(Var(A)), Ob(Ix(Var(A), Lit(IntV(1)))),
+  [t |-> "for", tag |-> "for", var |-> <<105>>, coll |-> Var(A), body |-> <<T(<<91>>), Ob(Var(<<105>>)), T(<<93>>)>>],
+  Bit(Ix(Var(A), Lit(IntV(1)))), Bit(Cmp("==", Ix(Var(A), Lit(IntV(1))), Lit(Nil))), Bit(Cmp("contains", Var(A), Lit(Nil))),
+  Ob(Fl(Fl(Var(A), "reverse", <<>>), "join", <<>>)), Ob(Fl(Fl(Var(A), "concat", <<Var(A)>>), "join", <<>>)), Ob(Fl(Ix(Var(A), Lit(IntV(1))), "default", <<Bang>>)),
+  Ob(Fl(Fl(Var(A), "map", <<Lit(Str(KK))>>), "join", <<>>)), Ob(Fl(Fl(Var(A), "sort", <<>>), "join", <<>>)), Ob(Fl(Var(A), "first", <<>>)), Ob(Fl(Fl(Var(A), "last", <<>>), "upcase", <<>>)),
+  Ob(Fl(Ix(Var(A), Lit(IntV(1))), "append", <<Bang>>)), Ob(Fl(Ix(Var(A), Lit(IntV(1))), "size", <<>>)), Ob(Fl(Bang, "append", <<Ix(Var(A), Lit(IntV(1)))>>))
+>>
 SeqReprs == {"", "ints", "int64s", "int32s", "int16s", "int8s", "uints", "uint16s", "uint32s", "uint64s", "float64s", "array2", "drop", "ptr"}
 
 \* ------------------------------------------------------------------ cases
@@ -99,6 +109,7 @@ Cases ==
   \cup [g : {"flt"}, xr : 1..Len(FloatWidths), d : BOOLEAN]
   \cup [g : {"seq"}, r : {"", "ints", "array3", "drop", "ptr"}, er : {"", "drop", "int8", "uint16"}]
   \cup [g : {"seqtext"}, r : SeqReprs \ {""}, p : 1..Len(SeqTextProbes)]
+  \cup [g : {"nilseq"}, r : {"", "array3", "drop", "ptr"}, er : {"drop"}, p : 1..Len(NilSeqProbes)]
   \cup [g : {"strseq"}, r : {"", "strings", "array3", "drop"}, er : {"", "drop"}]
   \* membership: every sequence representation x every width of the needle
   \cup [g : {"member"}, r : {"", "ints", "int64s", "int8s", "float64s", "array3", "drop"}, xr : 1..(Len(IntWidths) + 2), xv : {2, 5}]
@@ -116,6 +127,7 @@ MemberProg == <<Bit(Cmp("contains", Var(A), Var(X))), Bit(Cmp("contains", Var(A)
 ProgOf(x) ==
   CASE x.g = "member" -> MemberProg
     [] x.g = "seqtext" -> <<SeqTextProbes[x.p]>>
+    [] x.g = "nilseq" -> <<NilSeqProbes[x.p]>>
     [] x.g \in {"num", "numf"} -> NumProg [] x.g = "flt" -> FltProg [] x.g = "seq" -> SeqProg [] x.g = "strseq" -> StrSeqProg
     [] x.g = "map" -> MapProg [] x.g = "bytes" -> BytesProg [] x.g = "ptr" -> PtrProg [] x.g = "drop" -> DropProg
 M1(k, v) == MapV(<< <<k, v>> >>)
@@ -126,6 +138,7 @@ EnvOf2(x) ==
     [] x.g = "flt" -> << <<X, Flt(5, 2)>> >>
     [] x.g = "seq" -> << <<A, Arr(<<IntV(3), IntV(1), IntV(2)>>)>>, <<<<98>>, Arr(<<IntV(3), IntV(1), IntV(2)>>)>> >>
     [] x.g = "seqtext" -> << <<A, Arr(<<IntV(104), IntV(105)>>)>>, <<<<98>>, Arr(<<IntV(104), IntV(105)>>)>> >>
+    [] x.g = "nilseq" -> << <<A, Arr(<<Str(<<120>>), Nil, Str(<<121>>)>>)>> >>
     [] x.g = "strseq" -> << <<A, Arr(<<Str(<<99>>), Str(<<97>>), Str(<<98>>)>>)>> >>
     [] x.g = "map" -> << <<M, MapV(<< <<JJ, IntV(4)>>, <<KK, IntV(1)>> >>)>> >>
     [] x.g = "bytes" -> << <<S0, Str(<<104, 195, 169, 108, 108, 111>>)>> >>
@@ -140,6 +153,7 @@ ReprOf(x) ==
     [] x.g = "seq" -> H("a", x.r) @@ (IF x.r \in {"", "array3", "drop", "ptr"} THEN H("a/1", x.er) ELSE <<>>)
                       @@ (IF x.r \in {"ints"} THEN <<>> ELSE H("b", x.r))
     [] x.g = "seqtext" -> H("a", x.r)
+    [] x.g = "nilseq" -> H("a", x.r) @@ H("a/1", x.er)
     [] x.g = "strseq" -> H("a", x.r) @@ (IF x.r \in {"", "array3", "drop"} THEN H("a/0", x.er) ELSE <<>>)
     [] x.g = "map" -> H("m", x.r) @@ (IF x.r # "mapint" THEN H("m/k", x.er) ELSE <<>>)
     [] x.g = "bytes" -> H("s", x.r)
@@ -152,7 +166,7 @@ Init == c \in Cases
 Next == UNCHANGED vars
 Ref == Render(Cx0, ProgOf(c), EnvOf(EnvOf2(c)))
 \* the reference decides every family (otherwise the comparison would be vacuous)
-ReferenceDecides == c.g # "seqtext" => Ref.status = "ok"
+ReferenceDecides == c.g \notin {"seqtext", "nilseq"} => Ref.status = "ok"
 
 EmitCase == PrintT(ToJson([id |-> ToString(c), kind |-> "render", prog |-> ProgOf(c), env |-> EnvOf2(c), repr |-> ReprOf(c), g |-> c.g, cmpown |-> TRUE]))
 =============================================================================
